@@ -556,6 +556,18 @@ pub fn x4() -> OptionParser<(u32, bool)> {
     construct!(c, s).to_options()
 }
 
+fn kv_drink() -> OptionParser<bool> {
+    let c = short('c').long("coffee").switch();
+    construct!(c).to_options().version("1.2").descr("have a drink")
+}
+
+/// repeated *adjacent* subcommand with its own version, top level without one
+pub fn kv() -> OptionParser<(bool, Vec<bool>)> {
+    let p = short('p').long("pour").switch();
+    let d = kv_drink().command("drink").adjacent().many();
+    construct!(p, d).to_options()
+}
+
 /// switch declared before a repeated argument (the switch's consumption precedes the loop)
 pub fn g4() -> OptionParser<(bool, Vec<u32>, u32)> {
     let a = short('a').long("alpha").switch();
@@ -609,6 +621,15 @@ pub fn pt() -> OptionParser<(bool, bool, Option<OsString>, Vec<OsString>)> {
     construct!(a, e, b, xs).to_options()
 }
 
+
+/// pt with an `adjacent()` restriction on -b/--beta
+pub fn pj() -> OptionParser<(bool, bool, Option<OsString>, Vec<OsString>)> {
+    let a = short('a').long("alpha").switch();
+    let e = short('\u{e9}').long("eacute").switch();
+    let b = short('b').long("beta").argument::<OsString>("B").adjacent().optional();
+    let xs = positional::<OsString>("XS").many();
+    construct!(a, e, b, xs).to_options()
+}
 
 /// byte-exact targets: PathBuf and OsString arguments / positional
 pub fn pp() -> OptionParser<(Option<std::path::PathBuf>, Option<OsString>, Vec<std::path::PathBuf>)> {
